@@ -11,7 +11,7 @@ from ..srcmodel import walk_local, norm, dotted, guards, parent
 from . import common, forward
 from .c16 import fixpoint_loops
 
-from .c13 import lockdown, qq_depth_precedence
+from .c13 import lockdown, qq_depth_precedence, keyword_wins_depth
 
 META = {
     'explanation': (
@@ -56,7 +56,9 @@ def check(ctx):
     ctx.attempt(forward.check_all, module_suffixes=('tract.aliquot_parse', 'tract.tract', 'tract.tract_parse'))
     ctx.attempt(lockdown, ctx.repo.func('Tract.parse'), only=('qq_depth', 'qq_depth_min', 'qq_depth_max', 'break_halves'))
     ctx.attempt(qq_depth_precedence, ctx.repo.func('Tract.parse'))
+    ctx.attempt(keyword_wins_depth)
     ctx.attempt(_chain_language)
+    ctx.attempt(common.config_words, plss=('qq_depth', 'qq_depth_min', 'qq_depth_max', 'break_halves'), tract=('qq_depth', 'qq_depth_min', 'qq_depth_max', 'break_halves'))
 
 
 def _tables(ctx):
@@ -297,6 +299,23 @@ def _fixpoint_window(ctx):
         for o in ops:
             prior = [e for e in events if e[1] == o.id and e[0] < pos]
             last[o.id] = prior[-1] if prior else None
+        # a snapshot (copy / alias of the subject) taken after a pass of the
+        # same iteration leaves that pass outside the window
+        late = []
+        for o in ops:
+            ev_ = last[o.id]
+            if ev_ is not None and ev_[2] == 'other':
+                before = [e for e in passes if e[0] < ev_[0]]
+                if before:
+                    late.append((o.id, ev_, before))
+        if late:
+            name, ev_, before = late[0]
+            ctx.violation('FIXPOINT', construct,
+                          f"the snapshot `{name} = {ev_[3]}` is taken after {before[0][3]}() has already run in the same "
+                          f"iteration: the loop ends when the remaining pass changes nothing, even if {before[0][3]}() has "
+                          f"just moved a half to where it can be combined",
+                          key="FIXPOINT|standardize_aliquot_components|window", where=common.loc(fi, cmp_))
+            continue
         kinds = [last[o.id][2] if last[o.id] else 'carried' for o in ops]
         both_passes = kinds == ['pass', 'pass'] and last[ops[0].id][3] != last[ops[1].id][3]
         outside = sorted({e[3] for e in passes} - {last[o.id][3] for o in ops if last[o.id] and last[o.id][2] == 'pass'}) \
